@@ -2,7 +2,7 @@
 # tools/sweep.sh <tier> <seed...>: run every check with the given seeds (evidence redirected), print one line per run
 tier=$1; shift
 for seed in "$@"; do
-  for p in C01 C02 C03 C04 C05 C06 C07 C08 C09 C10 C11 C12 C13 C14 C15 C16 C17 C18 C19 C20; do
+  for p in ${PROPS:-C01 C02 C03 C04 C05 C06 C07 C08 C09 C10 C11 C12 C13 C14 C15 C16 C17 C18 C19 C20}; do
     start=$(date +%s)
     out=$(VERIF_SEED=$seed VERIF_EVIDENCE_DIR=/tmp/sweep_ev_${tier}_$seed timeout 14000 ./check $p --tier $tier 2>&1)
     rc=$?
